@@ -190,6 +190,9 @@ func shapeOf(in Input) string {
 	if in.SkipTx {
 		s = "notx|" + s
 	}
+	if in.Fire != "" {
+		s = in.Fire + "|" + s
+	}
 	return s
 }
 
@@ -235,6 +238,7 @@ func parentMain() {
 				Nontriv: inDom && binding > 0 && last.Kind == "ok" && len(last.Fired) >= 2})
 			out.Count("pipeline", in.Pipeline)
 			out.Count("skip_default_transaction", fmt.Sprint(in.SkipTx))
+			out.Count("fired_through", "plain"+in.Fire)
 			out.Count("history_length", fmt.Sprint(nUser))
 			out.Count("last_outcome", last.Kind)
 			out.Count("in_domain", fmt.Sprint(inDom))
